@@ -325,6 +325,34 @@ def run(ctx):
         if a != got:
             ctx.disagree("ShuntP.shuntP (tree of the precedence loop with prefix operators)", text, a, got)
             ctx.violation("prefix operators do not bind tighter than the infix operators that follow", {"expression": text}, expected=a, observed=got)
+    # ---- shift counts at the limit of what is taken for a sane count (operators.MAX_SHIFT, regenerated as Gen.maxShift):
+    # up to and including the limit the documented arithmetic, beyond it an error
+    MAXS = int(impl.mod("operators").MAX_SHIFT)
+    for a in (1, 123, -5, 0, 1 << 40):
+        for op in ("<<", ">>", "_"):
+            for c in (MAXS - 1, MAXS, MAXS + 1, -(MAXS - 1), -MAXS, -(MAXS + 1), 0, 1, -1):
+                if op in ("<<", ">>") and c < 0:
+                    want = None
+                elif abs(c) > MAXS:
+                    want = None
+                elif op == "<<" or (op == "_" and c >= 0):
+                    want = a * (1 << c)
+                elif op == ">>":
+                    want = a >> c
+                else:
+                    want = a >> (-c)
+                src = "a9 = %s\nres = a9 %s %s\n.word 0\n" % (("%d." % a) if a >= 0 else ("0 - %d." % -a), op, ("%d." % c) if c >= 0 else ("(0 - %d.)" % -c))
+                r = impl.assemble([("/t/main.mac", src)], want_symbols=True)
+                got = r.symbols.get(".internal1.res") if r.outcome == "ok" else None
+                ctx.case(("shift-limit", a, op, c))
+                ctx.count("shift counts at the limit")
+                if want is None:
+                    if r.outcome == "ok":
+                        ctx.violation("a negative or absurd shift count was given a value silently", {"source": src}, expected="an error", observed=str(got)[:60])
+                elif r.outcome != "ok" or got != want:
+                    ctx.violation("a shift by a count up to the limit does not give the documented value", {"source": src},
+                                  expected=("%d" % want)[:40] + ("… (%d bits)" % want.bit_length() if want.bit_length() > 120 else ""),
+                                  observed={"outcome": r.outcome, "errors": r.error_ids(), "value": (str(got)[:40] if got is not None else None)})
     # ---- literals: every radix spelling, the 8/9 rule
     lit_cases = []
     for v in [0, 1, 7, 8, 9, 10, 63, 64, 255, 0o777, 0o1000, 65535, 65536, 123456789]:
